@@ -311,6 +311,8 @@ thread_local! {
     static LAST_PANIC: std::cell::RefCell<Option<String>> = const { std::cell::RefCell::new(None) };
 }
 
+pub static FIRST_PANIC_ANY_THREAD: std::sync::Mutex<Option<String>> = std::sync::Mutex::new(None);
+
 pub fn install_panic_hook() {
     panic::set_hook(Box::new(|info| {
         let loc = info
@@ -331,6 +333,15 @@ pub fn install_panic_hook() {
         let mut m: String = msg.chars().take(160).collect();
         m = m.replace('\n', " ");
         LAST_PANIC.with(|p| *p.borrow_mut() = Some(format!("{} ({})", loc, m)));
+        if std::env::var("MSVERIF_PANIC_TRACE").is_ok() {
+            eprintln!("PANIC {} ({})\n{}", loc, m, std::backtrace::Backtrace::force_capture());
+        }
+        // a panic on a pool thread resurfaces on the thread that joins it: keep the first one globally too
+        if let Ok(mut g) = FIRST_PANIC_ANY_THREAD.lock() {
+            if g.is_none() {
+                *g = Some(format!("{} ({})", loc, m));
+            }
+        }
     }));
 }
 
